@@ -96,7 +96,6 @@ def _flush(trace):
         trace.flush()
 
 
-@deadline("VERIF_OBS_TIMEOUT", 10, lambda sc, traced=True: [{"e": [], "s": ["X", ["HarnessTimeout"]]}])
 def apply_share(doc, share):
     """make the container at share[1] the very object at share[0] (equal sub-trees by construction)"""
     if not share:
@@ -116,6 +115,7 @@ def apply_share(doc, share):
     return doc
 
 
+@deadline("VERIF_OBS_TIMEOUT", 10, lambda sc, traced=True: [{"e": [], "s": ["X", ["HarnessTimeout"]]}])
 def observe_query(sc, traced=True):
     """returns the list of per-call records [{e: events, s: signal}]"""
     doc = apply_share(dec(sc["doc"]), sc.get("share"))
